@@ -342,6 +342,12 @@ extern "C" int LLVMFuzzerInitialize(int*, char***)
         while (std::getline(in, tok, ',')) { if (!tok.empty()) { vf::options().known.insert(tok); } }
     }
     vf::options().thorough = true;
+    // construct the function-local statics first: exit handlers run in reverse order of registration, so the
+    // statistics must exist (and be destroyed) after the handler that prints them
+    (void) vf::stats();
+    (void) vf::files();
+    (void) vf::last_failing_tape();
+    (void) vf::last_failing_outcome();
     std::atexit(vf::fuzz_atexit);
     return 0;
 }
